@@ -16,4 +16,4 @@ def run(rep, W, ctx):
     S.s_sql_closed(rep, W)
     S.c02_cnt(rep, W)
     S.c10(rep, W)
-    H.c14_tables(rep, W)
+    H.c14_tables(rep, W, modules=("add_version",))   # the urgency reaches the client: X-Snapshot-Request rows of the AddVersion handler
